@@ -255,14 +255,15 @@ def apply_mutation(sb, m, ref_tree=None):
         if ref_tree is not None:
             ref_tree.touch(p)
         return True
-    if op == 'grow':
-        # other bytes AND other size, but the same mtime
+    if op in ('grow', 'nul'):
+        # other bytes AND other size, but the same mtime ('nul': the added byte is a NUL, which a hash
+        # over zero-padded blocks would not see)
         if not os.path.isfile(p):
             return False
         st = os.stat(p)
         with open(p, 'rb') as f:
             data = f.read()
-        new = data + b'+'
+        new = data + (b'+' if op == 'grow' else b'\0')
         with open(p, 'wb') as f:
             f.write(new)
         os.utime(p, ns=(st.st_atime_ns, st.st_mtime_ns))
